@@ -24,7 +24,7 @@ use hyperqueue::server::bootstrap::{ServerConfig, get_client_session, init_hq_se
 use hyperqueue::server::event::payload::EventPayload;
 use hyperqueue::transfer::connection::ClientSession;
 use hyperqueue::transfer::messages::{
-    AutoAllocRequest, AutoAllocResponse, CancelRequest, ForgetJobRequest, FromClientMessage, IdSelector, JobDescription, SubmitResponse, ToClientMessage,
+    AutoAllocRequest, AutoAllocResponse, CancelRequest, ForgetJobRequest, FromClientMessage, IdSelector, JobDescription, JobInfoRequest, SubmitResponse, ToClientMessage,
 };
 use serde::{Deserialize, Serialize};
 use serde_json::json;
@@ -36,12 +36,15 @@ use crate::sim::types::*;
 
 #[derive(Serialize, Deserialize, Clone, Debug)]
 pub enum Op {
-    /// submit a closed one-task job
-    Submit,
+    /// submit a closed job: `cpu` tasks a lab worker can run plus `gpu` tasks no lab worker can
+    /// run (they stay waiting, so the job stays unfinished and, after a worker ran, partly finished)
+    Submit { cpu: u32, gpu: u32 },
     /// open a job (takes a job id as well)
     Open,
     /// cancel + forget the newest job: the highest id disappears from the server's memory
     CancelForgetNewest,
+    /// close the newest job of this start (a no-op for a closed one)
+    CloseNewest,
     /// flush the journal and keep a copy of it: what a crash at this point leaves behind
     SnapshotJournal,
     /// create an allocation queue (`hq alloc add`), through the real client request
@@ -50,6 +53,9 @@ pub enum Op {
     RemoveNewestQueue,
     /// a real tako worker (`tako::worker::run_worker`) registers over TCP and disconnects again
     ConnectWorker,
+    /// a real tako worker whose launcher completes every task at once stays connected until the
+    /// server reports no unfinished task any more
+    RunWorkerUntilIdle,
 }
 
 #[derive(Serialize, Deserialize, Clone, Debug)]
@@ -77,12 +83,17 @@ pub fn gen_case(seed: u64) -> Vec<Start> {
             let mut ops = Vec::new();
             for _ in 0..rng.range(0, 6) {
                 ops.push(match rng.below(16) {
-                    0..=3 => Op::Submit,
+                    0..=3 => {
+                        let (cpu, gpu) = *rng.pick(&[(1u32, 0u32), (1, 0), (3, 0), (2, 1), (1, 2), (0, 1)]);
+                        Op::Submit { cpu, gpu }
+                    }
                     4 | 5 => Op::Open,
-                    6 | 7 => Op::CancelForgetNewest,
+                    6 => Op::CancelForgetNewest,
+                    7 => Op::CloseNewest,
                     8 => Op::SnapshotJournal,
                     9..=11 => Op::AddQueue,
                     12 => Op::RemoveNewestQueue,
+                    13 => Op::RunWorkerUntilIdle,
                     _ => Op::ConnectWorker,
                 });
             }
@@ -201,6 +212,39 @@ fn journal_facts(path: &Path) -> Result<Facts, String> {
     Ok(f)
 }
 
+struct InstantLauncher;
+
+impl tako::launcher::TaskLauncher for InstantLauncher {
+    fn build_task(&self, ctx: tako::launcher::TaskBuildContext, _stop: tokio::sync::oneshot::Receiver<tako::launcher::StopReason>) -> tako::Result<tako::launcher::TaskLaunchData> {
+        // what the HQ launcher hands to the server with the start of a task
+        let context = tako::comm::serialize(&hyperqueue::worker::start::RunningTaskContext { instance_id: ctx.instance_id() }).unwrap();
+        Ok(tako::launcher::TaskLaunchData::new(Box::pin(async { Ok(tako::launcher::TaskResult::Finished) }), context))
+    }
+}
+
+/// What a client sees of the jobs: id -> (tasks, finished, failed, canceled, aborted, open)
+type View = BTreeMap<u32, (u32, u32, u32, u32, u32, bool)>;
+
+async fn job_view(s: &mut ClientSession) -> Result<View, String> {
+    let m = FromClientMessage::JobInfo(JobInfoRequest { selector: IdSelector::All, include_running_tasks: false }, None);
+    match call(s, m).await {
+        Ok(ToClientMessage::JobInfoResponse(r)) => Ok(r
+            .jobs
+            .iter()
+            .map(|j| {
+                let c = &j.counters;
+                (j.id.as_num(), (j.n_tasks, c.n_finished_tasks, c.n_failed_tasks, c.n_canceled_tasks, c.n_aborted_tasks, j.is_open))
+            })
+            .collect()),
+        other => Err(format!("job info: {other:?}")),
+    }
+}
+
+/// Is there a task left that a lab worker can run? (`runnable`: job -> number of such tasks)
+fn work_left(v: &View, runnable: &BTreeMap<u32, u32>) -> bool {
+    v.iter().any(|(j, (_, f, x, c, a, _))| c + a == 0 && f + x < runnable.get(j).copied().unwrap_or(0))
+}
+
 struct NoLauncher;
 
 impl tako::launcher::TaskLauncher for NoLauncher {
@@ -216,13 +260,11 @@ pub async fn run_case(case: &[Start], tmp: &Path, id: u64) -> Rep {
     std::fs::create_dir_all(&base).unwrap();
     let mut journal = base.join("journal-0.bin");
     let mut lineage_uid: Option<String> = None;
-    let mut snapshot: Option<PathBuf> = None;
-    let array = SubmitSpec::Array {
-        ids: None,
-        entries: None,
-        req: ReqSpec { variants: vec![VariantSpec { n_nodes: 0, min_time_s: 0, entries: vec![EntrySpec { resource: "cpus".into(), policy: Policy::Compact, amount: 10_000 }] }] },
-        attrs: TaskAttrs { prio: 0, time_limit_s: None, crash: CrashSpec::Max(5) },
-    };
+    let mut snapshot: Option<(PathBuf, Option<View>, BTreeMap<u32, u32>)> = None;
+    // what a client saw when the journal the next start uses was complete (None = not stable)
+    let mut expected_view: Option<View> = None;
+    // job -> number of its tasks a lab worker can run
+    let mut runnable: BTreeMap<u32, u32> = BTreeMap::new();
     macro_rules! inconclusive {
         ($e:expr) => {{
             rep.inconclusive = Some($e);
@@ -231,9 +273,11 @@ pub async fn run_case(case: &[Start], tmp: &Path, id: u64) -> Rep {
     }
     for (k, st) in case.iter().enumerate() {
         if k > 0 && st.from_snapshot {
-            if let Some(snap) = snapshot.take() {
+            if let Some((snap, view, runnable_then)) = snapshot.take() {
                 // the server "crashed" when the copy was taken: everything written later is lost
                 journal = snap;
+                expected_view = view;
+                runnable = runnable_then;
                 rep.c("restarts_from_a_journal_copy_taken_mid_run", 1);
             }
         }
@@ -286,6 +330,34 @@ pub async fn run_case(case: &[Start], tmp: &Path, id: u64) -> Rep {
             }
             lineage_uid = Some(uid.clone());
         }
+        if existed {
+            if let Some(want) = expected_view.take() {
+                match job_view(&mut s).await {
+                    Ok(got) => {
+                        rep.c("job_views_compared_after_restart", 1);
+                        rep.c("jobs_compared_after_restart", want.len() as u64);
+                        // completed jobs need not be kept in memory; every unfinished job has to
+                        // be there as it was, and nothing else may appear
+                        let live = |t: &(u32, u32, u32, u32, u32, bool)| t.5 || t.1 + t.2 + t.3 + t.4 < t.0;
+                        rep.c("unfinished_jobs_compared_after_restart", want.values().filter(|t| live(t)).count() as u64);
+                        rep.c("partly_finished_jobs_compared_after_restart", want.values().filter(|t| live(t) && t.1 > 0).count() as u64);
+                        let missing = want.iter().any(|(j, t)| live(t) && got.get(j) != Some(t));
+                        let phantom = got.iter().any(|(j, t)| want.get(j) != Some(t));
+                        if missing || phantom {
+                            rep.v(
+                                "J5-client-view-differs-after-real-restart",
+                                format!("start {k}: jobs as (tasks, finished, failed, canceled, aborted, open) before the journal was closed/copied: {want:?}; after the restart: {got:?}"),
+                            );
+                        }
+                    }
+                    Err(e) => inconclusive!(format!("start {k}: {e}")),
+                }
+            }
+        }
+        expected_view = None;
+        let mut worker_seen = false;
+        let mut open_ids: BTreeSet<u32> = BTreeSet::new();
+        let mut submits_into: BTreeMap<u32, u32> = BTreeMap::new();
         let mut issued: Vec<u32> = Vec::new();
         let mut queues_issued: Vec<u32> = Vec::new();
         let mut workers_issued: Vec<u32> = Vec::new();
@@ -310,7 +382,64 @@ pub async fn run_case(case: &[Start], tmp: &Path, id: u64) -> Rep {
                         other => inconclusive!(format!("start {k}: remove queue: {other:?}")),
                     }
                 }
+                Op::RunWorkerUntilIdle => {
+                    worker_seen = true;
+                    let spec = WorkerSpec { resources: vec![ResSpec { name: "cpus".into(), kind: ResKind::Range(4) }], group: "g".into(), time_limit_s: None };
+                    let mut cfg = conv::worker_configuration(&spec, 2);
+                    cfg.hostname = "localhost".into();
+                    let addr: std::net::SocketAddr = format!("127.0.0.1:{worker_port}").parse().unwrap();
+                    let stop = std::sync::Arc::new(tokio::sync::Notify::new());
+                    let r = tokio::time::timeout(Duration::from_secs(20), tako::worker::run_worker(vec![addr], cfg, None, |_, _| Box::new(InstantLauncher) as Box<dyn tako::launcher::TaskLauncher>, stop)).await;
+                    let (wid, fut) = match r {
+                        Ok(Ok(((wid, _), fut))) => (wid, fut),
+                        Ok(Err(e)) => inconclusive!(format!("start {k}: worker registration failed: {e:?}")),
+                        Err(_) => inconclusive!(format!("start {k}: worker registration took more than 20 s")),
+                    };
+                    workers_issued.push(wid.as_num());
+                    rep.c("worker_ids_issued", 1);
+                    let worker = tokio::task::spawn_local(fut);
+                    let had_work = job_view(&mut s).await.map(|v| work_left(&v, &runnable)).unwrap_or(false);
+                    // `hq job wait` polls / streams; here: ask until nothing is unfinished
+                    let t0 = Instant::now();
+                    let mut drained = false;
+                    while t0.elapsed() < Duration::from_secs(20) {
+                        match job_view(&mut s).await {
+                            Ok(v) if !work_left(&v, &runnable) => {
+                                drained = true;
+                                break;
+                            }
+                            Ok(_) => tokio::time::sleep(Duration::from_millis(3)).await,
+                            Err(e) => {
+                                worker.abort();
+                                inconclusive!(format!("start {k}: {e}"));
+                            }
+                        }
+                    }
+                    worker.abort();
+                    if drained {
+                        rep.c("real_worker_ran_until_no_task_was_left", 1);
+                        if had_work {
+                            rep.c("real_worker_ran_until_no_task_was_left.with_work", 1);
+                        }
+                    } else {
+                        let v = job_view(&mut s).await;
+                        if std::env::var("HQV_RS_DEBUG").is_ok() {
+                            let l = call(&mut s, FromClientMessage::GetList { workers: true }).await;
+                            if let Ok(ToClientMessage::GetListResponse(l)) = &l {
+                                for w in &l.workers {
+                                    eprintln!("worker {} ended {:?} runtime {:?} res {:?}", w.id, w.ended, w.runtime_info, w.configuration.resources);
+                                }
+                            }
+                            let e = call(&mut s, FromClientMessage::TaskExplain(hyperqueue::transfer::messages::TaskExplainRequest { job_selector: hyperqueue::transfer::messages::SingleIdSelector::Last, task_id: 0.into() })).await;
+                            eprintln!("explain: {e:?}");
+                            let m = FromClientMessage::JobInfo(JobInfoRequest { selector: IdSelector::All, include_running_tasks: true }, None);
+                            eprintln!("jobs: {:?}", call(&mut s, m).await);
+                        }
+                        inconclusive!(format!("start {k}: a real worker with an instant launcher did not drain the jobs within 20 s: {v:?}"));
+                    }
+                }
                 Op::ConnectWorker => {
+                    worker_seen = true;
                     let spec = WorkerSpec { resources: vec![ResSpec { name: "cpus".into(), kind: ResKind::Range(2) }], group: "g".into(), time_limit_s: None };
                     let mut cfg = conv::worker_configuration(&spec, 1);
                     cfg.hostname = "localhost".into();
@@ -328,11 +457,29 @@ pub async fn run_case(case: &[Start], tmp: &Path, id: u64) -> Rep {
                         Err(_) => inconclusive!(format!("start {k}: worker registration took more than 20 s")),
                     }
                 }
-                Op::Submit => {
-                    let m = FromClientMessage::Submit(conv::submit_request(None, None, &array), None);
+                Op::Submit { cpu, gpu } => {
+                    let attrs = TaskAttrs { prio: 0, time_limit_s: None, crash: CrashSpec::Max(5) };
+                    let one = |r: &str| ReqSpec { variants: vec![VariantSpec { n_nodes: 0, min_time_s: 0, entries: vec![EntrySpec { resource: r.into(), policy: Policy::Compact, amount: 10_000 }] }] };
+                    // into the newest job if that one is open (task ids continue), else a new job
+                    let target = issued.last().copied().filter(|j| open_ids.contains(j));
+                    let base_id = target.map(|j| 100 * submits_into.get(&j).copied().unwrap_or(0)).unwrap_or(0);
+                    let tasks: Vec<GraphTask> = (0..cpu + gpu).map(|i| GraphTask { id: base_id + i, deps: vec![], req: (i >= *cpu) as usize, attrs: attrs.clone() }).collect();
+                    let spec = SubmitSpec::Graph { reqs: vec![one("cpus"), one("gpus")], tasks };
+                    let m = FromClientMessage::Submit(conv::submit_request(target, None, &spec), None);
                     match call(&mut s, m).await {
                         Ok(ToClientMessage::SubmitResponse(SubmitResponse::Ok { job, server_uid })) => {
-                            issued.push(job.info.id.as_num());
+                            let id = job.info.id.as_num();
+                            if let Some(t) = target {
+                                rep.c("submits_into_an_open_job", 1);
+                                *submits_into.entry(t).or_insert(0) += 1;
+                                *runnable.entry(t).or_insert(0) += *cpu;
+                                if id != t {
+                                    rep.v("I1-submit-into-open-job-answered-with-another-job", format!("start {k}: submit into job {t} answered with job {id}"));
+                                }
+                                continue;
+                            }
+                            issued.push(id);
+                            runnable.insert(id, *cpu);
                             rep.c("job_ids_issued", 1);
                             if server_uid != uid {
                                 rep.v("I4-submit-answer-names-another-server", format!("server info says {uid}, the submit answer {server_uid}"));
@@ -345,10 +492,24 @@ pub async fn run_case(case: &[Start], tmp: &Path, id: u64) -> Rep {
                     let m = FromClientMessage::OpenJob(JobDescription { name: "open".into(), max_fails: None });
                     match call(&mut s, m).await {
                         Ok(ToClientMessage::OpenJobResponse(r)) => {
+                            open_ids.insert(r.job_id.as_num());
+                            submits_into.insert(r.job_id.as_num(), 1);
                             issued.push(r.job_id.as_num());
                             rep.c("job_ids_issued", 1);
                         }
                         other => inconclusive!(format!("start {k}: open: {other:?}")),
+                    }
+                }
+                Op::CloseNewest => {
+                    let Some(newest) = issued.last().copied() else { continue };
+                    let sel = IdSelector::Specific(hyperqueue::common::arraydef::IntArray::from_id(newest));
+                    match call(&mut s, FromClientMessage::CloseJob(hyperqueue::transfer::messages::CloseJobRequest { selector: sel })).await {
+                        Ok(ToClientMessage::CloseJobResponse(_)) => {
+                            if open_ids.remove(&newest) {
+                                rep.c("open_job_closed", 1);
+                            }
+                        }
+                        other => inconclusive!(format!("start {k}: close: {other:?}")),
                     }
                 }
                 Op::CancelForgetNewest => {
@@ -369,8 +530,12 @@ pub async fn run_case(case: &[Start], tmp: &Path, id: u64) -> Rep {
                         other => inconclusive!(format!("start {k}: flush: {other:?}")),
                     }
                     let copy = base.join(format!("journal-copy-{k}-{}.bin", issued.len()));
+                    // the state is only comparable if nothing can have changed while the copy was taken
+                    let v1 = job_view(&mut s).await.ok();
                     if std::fs::copy(&journal, &copy).is_ok() {
-                        snapshot = Some(copy);
+                        let v2 = job_view(&mut s).await.ok();
+                        let stable = v1.is_some() && v1 == v2 && (!worker_seen || !v1.as_ref().map(|v| work_left(v, &runnable)).unwrap_or(true));
+                        snapshot = Some((copy, if stable { v1 } else { None }, runnable.clone()));
                         rep.c("journal_copies_taken_mid_run", 1);
                     }
                 }
@@ -411,6 +576,13 @@ pub async fn run_case(case: &[Start], tmp: &Path, id: u64) -> Rep {
         if distinct.len() != issued.len() {
             rep.v("I1-job-id-reuse", format!("start {k} issued {issued:?}"));
         }
+        {
+            let v1 = job_view(&mut s).await.ok();
+            let flushed = matches!(call(&mut s, FromClientMessage::FlushJournal).await, Ok(ToClientMessage::Finished));
+            let v2 = job_view(&mut s).await.ok();
+            let stable = flushed && v1.is_some() && v1 == v2 && (!worker_seen || !v1.as_ref().map(|v| work_left(v, &runnable)).unwrap_or(true));
+            expected_view = if stable { v1 } else { None };
+        }
         if client_stop_server(s.connection()).await.is_err() {
             inconclusive!(format!("start {k}: the stop request could not be sent"));
         }
@@ -441,7 +613,19 @@ pub async fn run_case(case: &[Start], tmp: &Path, id: u64) -> Rep {
     rep
 }
 
-pub fn params() -> (&'static str, serde_json::Value, Vec<&'static str>) {
+pub fn params(prop: &str) -> (&'static str, serde_json::Value, Vec<&'static str>) {
+    let (rule, minima, assumptions) = params_c11();
+    if prop == "C10" {
+        return (
+            "real-server lab (the same runs as for C11, judged for C10): before the server is stopped - or a flushed copy of its journal is taken, a crash point - a real client records what it sees of every job (tasks, finished, failed, canceled, aborted, open); after the restart through the real `init_hq_server` every job that was unfinished must be reported exactly as before and no job may appear that was not there (completed jobs may be dropped); real tako workers with a launcher that finishes every task at once drain the runnable tasks in between, so jobs are compared in all of: untouched, partly finished (tasks no lab worker can run stay waiting), finished, canceled+forgotten, open",
+            json!({"server_starts": 200, "job_views_compared_after_restart": 80, "unfinished_jobs_compared_after_restart": 80, "partly_finished_jobs_compared_after_restart": 5, "real_worker_ran_until_no_task_was_left.with_work": 15}),
+            assumptions,
+        );
+    }
+    (rule, minima, assumptions)
+}
+
+fn params_c11() -> (&'static str, serde_json::Value, Vec<&'static str>) {
     (
         "real-server lab: 2-4 consecutive starts of the real `init_hq_server` (own thread, sockets on localhost, real journal file and journal thread) on one journal lineage, each with or without a configured server uid (what --access-file does); a real client session reads the server info, submits / opens / cancels+forgets jobs, creates and removes allocation queues, takes flushed copies of the journal (crash points) and stops the server; real tako workers (`tako::worker::run_worker`) register over TCP and disconnect; the uid reported after every restart, the uid in submit answers and in all ServerStart records must be the lineage's, and every job id, queue id and worker id issued must be new to the journal the server was started from",
         json!({"server_starts": 200, "restarts_on_an_existing_journal": 100, "restarts_with_a_configured_uid_that_differs_from_the_journal": 40, "job_ids_issued_after_restart": 60, "queue_ids_issued_after_restart": 30, "worker_ids_issued_after_restart": 30}),
@@ -508,13 +692,15 @@ pub fn main(args: &[String]) -> i32 {
         runs += 1;
         steps += case.iter().map(|st| st.ops.len() as u64 + 2).sum::<u64>();
         let _ = crate::panics::take();
-        let rep = rt.block_on(run_case(&case, &tmp, i));
+        let local = tokio::task::LocalSet::new();
+        let rep = local.block_on(&rt, run_case(&case, &tmp, i));
+        drop(local);
         for (k, n) in &rep.cov {
             *cov.entry(k.clone()).or_insert(0) += n;
         }
         if let Some(why) = &rep.inconclusive {
             if rep.violations.is_empty() {
-                let short: String = why.chars().take(70).collect();
+                let short: String = why.chars().take(if std::env::var("HQV_RS_DEBUG").is_ok() { 700 } else { 70 }).collect();
                 *inconclusive.entry(short).or_insert(0) += 1;
                 continue;
             }
@@ -538,7 +724,7 @@ pub fn main(args: &[String]) -> i32 {
         }
     }
     let _ = std::fs::remove_dir_all(&tmp);
-    let (rule, minima, assumptions) = params();
+    let (rule, minima, assumptions) = params(&prop);
     let summary = json!({
         "prop": prop, "shard": shard, "seed": seed, "runs": runs, "steps": steps,
         "verdicts": {"held": held, "violated": violated},
